@@ -30,6 +30,8 @@ CLASSES = {
     # plain header names, but OBJECT paths with special characters (the depfile's target side):
     'obj-space': lambda b: b + '.h',
     'obj-dollar-hash': lambda b: b + '.h',
+    # a precompiled header (which itself includes another header) used by every translation unit
+    'pch': lambda b: b + '.h',
 }
 # class -> (executable name, path of util.c): objects are <exe>.int/main.o and <exe>.int/<dir>/util.o
 LAYOUT = {'obj-space': ('my prog', 'sub dir/util.c'), 'obj-dollar-hash': ('pr$g', 's#b/util.c')}
@@ -39,6 +41,7 @@ class Model:
     def __init__(self, cls):
         self.h = CLASSES[cls]
         self.exe, self.util = LAYOUT.get(cls, ('prog', 'util.c'))
+        self.pch = cls == 'pch'
         up = '../' * self.util.count('/')
         self.files = {}
         self.vals = {}
@@ -52,11 +55,19 @@ class Model:
         self.files['main.c'] = ('#include <stdio.h>\n#include "%s"\nint util(void);\n'
                                 'int main(void) { printf("%%d %%d %%d\\n", VA, VC, util()); return 0 + 0; }\n' % a)
         self.files['build.bfg'] = "executable(%r, ['main.c', %r])\n" % (self.exe, self.util)
+        if self.pch:
+            self.files['pre.h'] = '#include "p.h"\n#define VP 5\n'
+            self.files['p.h'] = '#define VQ 6\n'
+            self.files['main.c'] = self.files['main.c'].replace('printf("%d %d %d\\n", VA, VC, util())',
+                                                                'printf("%d %d %d %d\\n", VA, VC, util(), VP * 10 + VQ)')
+            self.files['build.bfg'] = ("pch = precompiled_header(file='pre.h')\n"
+                                       "executable('prog', ['main.c', 'util.c'], pch=pch)\n")
 
     def clone(self):
         m = Model.__new__(Model)
         m.h = self.h
         m.exe, m.util = self.exe, self.util
+        m.pch = self.pch
         m.files = dict(self.files)
         m.n_added = self.n_added
         return m
@@ -70,7 +81,7 @@ class Model:
     def closure(self, tu):
         """reference include scanner: transitive closure of #include "..." from the model"""
         seen = set()
-        todo = [tu]
+        todo = [tu] + (['pre.h'] if self.pch and tu.endswith('.c') else [])
         while todo:
             f = todo.pop()
             if f in seen or f not in self.files:
@@ -97,7 +108,10 @@ class Model:
         else:
             util = int(um2.group(1)) * 100 + macros['VA'] + int(um2.group(2))
         mm = re.search(r'return (\d+) \+ (\d+);', self.files['main.c'])
-        return '%d %d %d' % (macros['VA'], macros['VC'], util), int(mm.group(1)) + int(mm.group(2))
+        out = '%d %d %d' % (macros['VA'], macros['VC'], util)
+        if self.pch:
+            out += ' %d' % (macros['VP'] * 10 + macros['VQ'])
+        return out, int(mm.group(1)) + int(mm.group(2))
 
 
 def bump(text, pat):
